@@ -246,6 +246,9 @@ def _worker_init(modname, cfg, slots, slot_index):
         sys.stdout = devnull
         mod = importlib.import_module(modname)
         _worker_check = mod
+        from . import spaces as _spaces
+        # progress marks between executions: a shard that keeps enumerating is not a hang
+        _spaces.ON_DATASET = lambda n, m, index: mark({'note': 'enumerating', 'block': [n, m], 'index': index})
         tmp = cfg.get('tmpdir')
         if tmp:
             wtmp = os.path.join(tmp, 'w%d' % os.getpid())
